@@ -9,6 +9,8 @@ import NflowsModel.Lemmas.Quad
 import NflowsModel.Lemmas.SqueezeIndex
 import NflowsModel.Lemmas.SqueezeLayout
 import NflowsModel.Lemmas.RQInverseWhole
+import NflowsModel.Lemmas.StructureExec
+import NflowsModel.Lemmas.StructureExecRQ
 /-!
 # C02 — inverse undoes forward (both orders) and returns the negated log-abs-det
 
@@ -192,5 +194,36 @@ theorem rq_program_inv_is_output (e : Float → ℝ) (c : RQCfg) (uw uh ud : Lis
 
 /-- non-vacuity: the round trip on the concrete one-bin configuration -/
 example (y : ℝ) (hy0 : 0 ≤ y) (hy1 : y ≤ 1) := RQInverseWhole.example_roundtrip y hy0 hy1
+
+/-! ## the EXECUTED coupling layer: inverse ∘ forward on whole arrays -/
+
+/-- **executed coupling layer over the reals, any family with invertible elements**: if every transformed element inverts
+    (`ElInvertible`: the inverse element map on the forward output returns the input and the negated log-det) and the forward
+    pass reported no error, then the inverse pass on the forward OUTPUT ARRAY with the same conditioner output returns the
+    input array, reports no error, is fed the same conditioner input (so "same parameters" is justified), and returns the
+    negated row log-dets — any mask, any `B`, `S` (2-D and image layouts). -/
+theorem exec_coupling_inverse_forward (e : Float → ℝ) (c : ElCfg) (mask : List ℝ) (B S : Nat) (x params uparams uparams' : Array ℝ)
+    (hinv : NF.StructureExec.ElInvertible (NF.realX e) c (transformIdx (NF.realX e) mask).length S params B)
+    (herr : (couplingApply (NF.realX e) c mask B S x params false none uparams).err = none)
+    (hsz : B * mask.length * S ≤ x.size) :
+    let fwd := couplingApply (NF.realX e) c mask B S x params false none uparams
+    let inv := couplingApply (NF.realX e) c mask B S fwd.out params true none uparams'
+    inv.out = x ∧ inv.err = none ∧ inv.condIn = fwd.condIn ∧ ∀ b, b < B → inv.ld[b]? = (fwd.ld[b]?).map (fun l => -l) :=
+  NF.StructureExec.coupling_inverse_forward_real e c mask B S x params uparams uparams' hinv herr hsz
+
+/-- **… with the hypothesis discharged for the bounded rational-quadratic family** by the whole-program spline theorems:
+    it is enough that every parameter slice is an accepted configuration (`RQParamsValid`) -/
+theorem exec_rq_coupling_roundtrip (e : Float → ℝ) (c : ElCfg) (hk : c.kind = "rq") (ht : c.tails = false)
+    (mask : List ℝ) (B S : Nat) (x params uparams uparams' : Array ℝ)
+    (hv : NF.StructureExec.RQParamsValid e c (transformIdx (NF.realX e) mask).length S params B)
+    (herr : (couplingApply (NF.realX e) c mask B S x params false none uparams).err = none)
+    (hsz : B * mask.length * S ≤ x.size) :
+    let fwd := couplingApply (NF.realX e) c mask B S x params false none uparams
+    let inv := couplingApply (NF.realX e) c mask B S fwd.out params true none uparams'
+    inv.out = x ∧ inv.err = none ∧ inv.condIn = fwd.condIn ∧ ∀ b, b < B → inv.ld[b]? = (fwd.ld[b]?).map (fun l => -l) :=
+  NF.StructureExec.coupling_rq_roundtrip_real e c hk ht mask B S x params uparams uparams' hv herr hsz
+
+/-- non-vacuity: parameter arrays meeting `RQParamsValid` exist for every layout -/
+example (Ft S B : Nat) := NF.StructureExec.rqParamsValid_example Ft S B
 
 end Properties.C02
